@@ -32,6 +32,63 @@ struct Shared {
     sends: Mutex<Vec<Value>>,
     /// session ids of the started sessions, for "$sid:NAME" placeholders in event payloads
     sids: Mutex<HashMap<String, u32>>,
+    /// HTTP requests made by "post" steps: [tag, status (0 = transport error), body or error text, t_us before, t_us after]
+    posts: Mutex<Vec<Value>>,
+}
+
+/// application/x-www-form-urlencoded, written here (not by the client library) so that the scenario controls the spelling:
+/// mode "plus" encodes a blank as '+', mode "pct" as %20; unreserved characters stay, everything else is %XX of its UTF-8 bytes.
+fn form_encode(s: &str, plus: bool) -> String {
+    let mut o = String::new();
+    for b in s.bytes() {
+        match b {
+            b'A'..=b'Z' | b'a'..=b'z' | b'0'..=b'9' | b'-' | b'_' | b'.' | b'~' => o.push(b as char),
+            b' ' if plus => o.push('+'),
+            _ => o.push_str(&format!("%{:02X}", b)),
+        }
+    }
+    o
+}
+
+fn do_post(sh: &Arc<Shared>, st: &Value) {
+    let tag = st.get("tag").cloned().unwrap_or(Value::Null);
+    let to = st.get("post").and_then(|x| x.as_str()).unwrap_or("");
+    let path = if let Some(n) = to.strip_prefix("raw:") {
+        n.to_string()
+    } else {
+        match sh.sids.lock().unwrap().get(to) {
+            Some(id) => id.to_string(),
+            None => to.to_string(),
+        }
+    };
+    let plus = st.get("plus").and_then(|x| x.as_bool()).unwrap_or(true);
+    let body = match st.get("body").and_then(|x| x.as_str()) {
+        Some(b) => b.to_string(),
+        None => {
+            let mut parts = Vec::new();
+            if let Some(Value::Array(fs)) = st.get("fields") {
+                for f in fs {
+                    let k = f.get(0).and_then(|x| x.as_str()).unwrap_or("");
+                    let v = f.get(1).and_then(|x| x.as_str()).unwrap_or("");
+                    parts.push(format!("{}={}", form_encode(k, plus), form_encode(v, plus)));
+                }
+            }
+            parts.join("&")
+        }
+    };
+    let url = format!("http://127.0.0.1:5555/scxml/{}", path);
+    let t0 = sh.ctx.us();
+    let r = ureq::post(&url).set("Content-Type", "application/x-www-form-urlencoded").timeout(Duration::from_secs(10)).send_string(&body);
+    let t1 = sh.ctx.us();
+    let rec = match r {
+        Ok(resp) => {
+            let code = resp.status();
+            json!([tag, code, resp.into_string().unwrap_or_default(), t0, t1])
+        }
+        Err(ureq::Error::Status(code, resp)) => json!([tag, code, resp.into_string().unwrap_or_default(), t0, t1]),
+        Err(e) => json!([tag, 0, format!("{}", e), t0, t1]),
+    };
+    sh.posts.lock().unwrap().push(rec);
 }
 
 fn substitute(v: &Value, sids: &HashMap<String, u32>) -> Value {
@@ -159,6 +216,8 @@ fn producer_steps(sh: &Arc<Shared>, env: &Arc<StartEnv>, producer: usize, steps:
             std::thread::sleep(Duration::from_micros(us));
         } else if let Some(k) = st.get("gate").and_then(|x| x.as_i64()) {
             sh.ctx.open_gate(k);
+        } else if st.get("post").is_some() {
+            do_post(sh, st);
         } else if let Some(to) = st.get("send").and_then(|x| x.as_str()) {
             let sender = sh.senders.lock().unwrap().get(to).cloned();
             if let Some(s) = sender {
@@ -179,8 +238,41 @@ pub fn run_scenario(job: &Value) -> Value {
     let timeout_ms = job.get("timeout_ms").and_then(|x| x.as_u64()).unwrap_or(15000);
     let deadline = Instant::now() + Duration::from_millis(timeout_ms);
     let ctx = RunCtx::new();
-    let sh = Arc::new(Shared { ctx: ctx.clone(), senders: Mutex::new(HashMap::new()), sends: Mutex::new(Vec::new()), sids: Mutex::new(HashMap::new()) });
-    let mut executor = FsmExecutor::new_without_io_processor();
+    let sh = Arc::new(Shared { ctx: ctx.clone(), senders: Mutex::new(HashMap::new()), sends: Mutex::new(Vec::new()), sids: Mutex::new(HashMap::new()),
+                                 posts: Mutex::new(Vec::new()) });
+    // with "http": the executor owns the BasicHTTP processor (rocket on the fixed port 5555, needs a tokio runtime that lives
+    // as long as the scenario)
+    let mut runtime: Option<tokio::runtime::Runtime> = None;
+    let mut executor = if job.get("http").and_then(|x| x.as_bool()).unwrap_or(false) {
+        let rt = tokio::runtime::Builder::new_multi_thread().worker_threads(4).enable_all().build().expect("tokio runtime");
+        let mut started = None;
+        for _attempt in 0..40 {
+            // (the port of the previous scenario may still be closing)
+            let free = std::net::TcpListener::bind(("127.0.0.1", 5555)).is_ok();
+            if !free {
+                std::thread::sleep(Duration::from_millis(100));
+                continue;
+            }
+            let r = std::panic::catch_unwind(std::panic::AssertUnwindSafe(|| rt.block_on(FsmExecutor::new_with_io_processor())));
+            let _ = take_panics_for(std::thread::current().name().unwrap_or("?"));
+            if let Ok(e) = r {
+                started = Some(e);
+                break;
+            }
+            std::thread::sleep(Duration::from_millis(100));
+        }
+        match started {
+            Some(e) => {
+                runtime = Some(rt);
+                e
+            }
+            None => {
+                return json!({"id": id, "errors": ["http server did not start (port 5555 busy?)"], "tool_error": true});
+            }
+        }
+    } else {
+        FsmExecutor::new_without_io_processor()
+    };
     executor.set_include_paths(&vec![std::path::PathBuf::from(&dir)]);
     if let Some(Value::Object(o)) = job.get("options") {
         let mut g = executor.state.lock().unwrap();
@@ -278,6 +370,10 @@ pub fn run_scenario(job: &Value) -> Value {
     for k in -1..32 {
         ctx.open_gate(k);
     }
+    if let Some(rt) = runtime.take() {
+        let _ = std::panic::catch_unwind(std::panic::AssertUnwindSafe(|| executor.shutdown()));
+        rt.shutdown_timeout(Duration::from_secs(3));
+    }
     json!({
         "id": id,
         "sessions": logs.iter().map(|l| crate::run::sess_json(l)).collect::<Vec<_>>(),
@@ -287,6 +383,7 @@ pub fn run_scenario(job: &Value) -> Value {
         "finals": Value::Object(finals),
         "gate_timeouts": *ctx.gate_timeouts.lock().unwrap(),
         "horizon": horizon,
+        "posts": *sh.posts.lock().unwrap(),
     })
 }
 
